@@ -794,6 +794,57 @@ pub fn record(args: &Args) {
             }
         }
     }
+    // inputs of parse_spends recorded from the repository's own test-suite (feature verif-hooks of chia-consensus,
+    // crates/chia-consensus/src/verif_hooks.rs): each distinct input is run again here, signature checking off,
+    // with the recorded constants, flags (projected on the five the parser reads), limits and visitor
+    if let Some(path) = args.get("pslog") {
+        let text = std::fs::read_to_string(path).expect("pslog");
+        let mut seen = std::collections::HashSet::new();
+        let keep_one_in = args.u64("pslog-one-in", 1).max(1);
+        let max_nodes = args.u64("pslog-max-nodes", 2500) as usize;
+        let mut k = 0u64;
+        for line in text.lines() {
+            let f: Vec<&str> = line.split(' ').collect();
+            if f.len() != 6 {
+                continue;
+            }
+            let (Ok(bytes), Ok(max), Ok(clvm), Ok(bits)) = (hex::decode(f[0]), f[1].parse::<u64>(), f[2].parse::<u64>(), f[3].parse::<u32>()) else { continue };
+            let rec = ConsensusFlags::from_bits_truncate(bits);
+            let mut names: Vec<String> = FLAG_NAMES[..4].iter().filter(|(_, v)| rec.contains(*v)).map(|(n, _)| (*n).to_string()).collect();
+            names.push("DONT_VALIDATE_SIGNATURE".to_string());
+            let vis = if f[4].contains("MempoolVisitor") { "mempool" } else { "empty" };
+            if !seen.insert((bytes.clone(), names.clone(), vis, max, clvm)) {
+                continue;
+            }
+            k += 1;
+            if (k + seed) % keep_one_in != 0 {
+                continue;
+            }
+            let doms: Vec<Vec<u8>> = f[5].split(',').filter_map(|d| hex::decode(d).ok()).collect();
+            if doms.len() != 7 || doms.iter().any(|d| d.len() != 32) {
+                continue;
+            }
+            let cc = Consts::from_doms(std::array::from_fn(|i| doms[i].clone()));
+            let mut a = Allocator::new();
+            let Ok(n) = clvmr::serde::node_from_bytes(&mut a, &bytes) else { continue };
+            let tree = Sx::from_node(&a, n);
+            let mut stack = vec![&tree];
+            let mut nodes = 0usize;
+            while let Some(x) = stack.pop() {
+                nodes += 1;
+                if let Sx::P(l, r) = x {
+                    stack.push(l);
+                    stack.push(r);
+                }
+            }
+            if nodes > max_nodes {
+                continue;
+            }
+            let mut e = event(&tree, &names, max, clvm, vis, &cc);
+            e["src"] = json!("repo-tests");
+            out.emit(&e);
+        }
+    }
     // pre-hard-fork limit of 1024 announcement-class conditions per spend: 1023, 1024, 1025 of them, two spends at 1024
     if args.u64("announce-limit", 0) > 0 {
         let h1 = vec![0x11u8; 32];
